@@ -1142,3 +1142,10 @@ func TestVerif_C10(t *testing.T) {
 		}
 	}
 }
+
+// TestVerifRace_C10 runs every scenario body free (gates answer at once, no oracle) under the race detector.
+func TestVerifRace_C10(t *testing.T) {
+	xplore.Free = 2
+	defer func() { xplore.Free = 0 }()
+	TestVerif_C10(t)
+}
